@@ -74,9 +74,9 @@ func zzDraw() zzBehaviour {
 		if verifrt.Bool("explicit-status") {
 			b.status = []int{200, 204, 404, 500}[verifrt.Choose("status", 4)]
 		}
-		n := verifrt.IntRange("chunks", 0, 2)
+		n := verifrt.IntRange("chunks", 0, 2+verifrt.Tier())
 		for i := 0; i < n; i++ {
-			b.chunks = append(b.chunks, verifrt.Bytes("chunk", verifrt.IntRange("chunklen", 1, 2)))
+			b.chunks = append(b.chunks, verifrt.Bytes("chunk", verifrt.IntRange("chunklen", 1, 2+verifrt.Tier())))
 		}
 		if b.status == 0 && n == 0 {
 			b.writes = false
